@@ -30,6 +30,8 @@ def _unwrap_check_and_cast(method):
     ):
         # TODO This can be simplified significantly if we use beartype
         def _check_condition(condition):
+            if bijection.cond_shape is None:
+                return None  # Unconditional bijections ignore the condition
             if condition is not None:
                 condition = arraylike_to_array(condition, err_name="condition")
             elif bijection.cond_shape is not None:
